@@ -26,7 +26,12 @@ Plain(c) ==
 Comp(c) ==
   { << Z(T(c, TRUE, 0), "fixed", 50) >>,
     << Z(T(c, FALSE, 7), "std6", 300), C(c, FALSE, 5), C(c, TRUE, 0) >>,
-    << Z(D(c, TRUE, 0), "stored", 20), D(c, TRUE, 4) >> }
+    << Z(D(c, TRUE, 0), "stored", 20), D(c, TRUE, 4) >>,
+    \* compressed payloads larger than the read buffer (the transport read that carries the fault can be a direct read)
+    << Z(D(c, TRUE, 0), "stored", 700) >>,
+    << Z(T(c, TRUE, 0), "fixed", 600) >>,
+    \* a sender that flushes its compressor inside the message: what arrives before the flush marker is a complete deflate prefix
+    << Z(T(c, TRUE, 0), "fixed2", 800) >>, << Z(D(c, TRUE, 0), "std2", 3000) >> }
 
 MCStreams(c) == Plain(c) \cup (IF c.pmce THEN Comp(c) ELSE {})
 
